@@ -224,10 +224,11 @@ EXTRA = {
            'test-particle count, test-particle type and gravity_ignore_terms in a complete small family (R02.8); integer variables of the hybrid integrators are typed global/compact '
            'index and never cross (R02.9); every sum, accumulation and comparison of the force routines and kick/drift/jump operators is dimensionally homogeneous over (L,T,M) (R02.4); '
            'the box edges are one formula per axis.',
-    'C03': 'Also: the pair set of the direct and compensated routines leaves out exactly the term solved by the Kepler step for gravity_ignore_terms 1 and 2 (R02.8).',
+    'C03': 'Also: the bisection fallback decides on a finite value (R03.6 - today a known finding: it is NaN-blind); the pair set of the direct and compensated routines leaves out exactly the term solved by the Kepler step for gravity_ignore_terms 1 and 2 (R02.8).',
     'C04': 'Also: every x/y/z statement triple of every function of every integrator source file is one formula under an axis permutation (R04.6).',
     'C05': 'Also: the byte count of every case of the writer\'s dtype switch equals the size of the members the rows of that dtype designate (R05.8).',
-    'C06': 'Also: descriptor rows designate the member they name (R05.2, shared with C05).',
+    'C06': 'Also: descriptor rows designate the member they name (R05.2, shared with C05); every per-snapshot array of the archive index gets a value that does not depend on a field being present in the delta (R06.7).',
+    'C07': 'Also: every branch of Simulation.save_to_file that calls a C save function drains the message queue afterwards (R07.9).',
     'C08': 'Also: the escape and close-encounter scans of the heartbeat range over the real particles only, compare in the right direction and set the matching status (R08.7); '
            'time and step comparisons of the catch-up loops, the exit test and the snapshot cadence are direction-normalised, and every catch-up loop clamps its last sub-step (R08.8).',
     'C09': 'Also: Simulationarchive.getSimulation sets the keep_unsynchronized switches before the first synchronising call in every branch (R09.7) and only on the integrator '
@@ -241,8 +242,10 @@ EXTRA = {
            'the relative position/velocity stanzas of the hard-sphere resolver are one formula per axis.',
     'C14': 'Also: qsort comparators are overflow-free three-way comparisons and the bisection orders the same unsigned key (R14.7); every function that releases a growable buffer '
            'resets its capacity counter - 25 buffer/counter pairs taken from the growth sites (R14.8).',
-    'C15': 'Also: box set-up (boxsize, root counts) is one formula per axis.',
-    'C16': 'Also: in WHFast every Jacobi<->inertial conversion of the real particles stands next to the same conversion of every variational configuration where the statement list has one (R16.6).',
+    'C15': 'Also: box set-up (boxsize, root counts) is one formula per axis; the loops of reb_boundary_check cover the real particles only (R15.8).',
+    'C16': 'Also: in WHFast every Jacobi<->inertial conversion of the real particles stands next to the same conversion of every variational configuration where the statement list has one (R16.6); '
+           'automatic rescaling divides every per-coordinate array the IAS15 allocator sizes by the same scale (R16.7); members of a variational configuration that only the second-order '
+           'constructor fills are read under a test of the same configuration\'s order (R16.8); boundary conditions never touch variational particles (R15.8).',
     'C17': 'Also: descriptor rows designate the member they name (R05.2) and the archive heartbeat advances the deadline before it writes (R06.5), so a stored snapshot equals the live state.',
     'C19': 'Also: the one capacity counter the serialiser lowers is lowered to a size the owner\'s growth test itself asks for (R19.4).',
     'C20': 'Also: in reb_simulation_move_to_com the totals come from completed loops over the right member and the per-particle summands of the first- and second-order shifts equal '
